@@ -669,13 +669,13 @@ var (
 	reOctalJoin       = regexp.MustCompile(`\\[0-7]{1,2}(\(\?:[0-7]\)|\[[0-7]\]|\{1\}[0-7]|.\{0\}[0-7])`)
 	reLitAlt          = regexp.MustCompile(`([^|()\[\]\\*+?{}.^$]+)\|([^|()\[\]\\*+?{}.^$]+)`)
 	reEscapedInBraces = regexp.MustCompile(`\{[0-9]+\\,[0-9]*\}`)
-	reUnwrapRepeat    = regexp.MustCompile(`(\[\{\]|\(\?:\{\))[0-9]|\{[0-9]+(\[,\]|\(\?:,\))|\{[0-9]+,?[0-9]*(\[\}\]|\(\?:\}\))`)
+	reUnwrapRepeat    = regexp.MustCompile(`(\[\{\]|\(\?:\{\))[0-9]|\{[0-9]+(\[,\]|\(\?:,\))|\{[0-9]+,?[0-9]*(\[\}\]|\(\?:\}\))|\{[0-9,]*(\[[0-9]\]|\(\?:[0-9]\))|\{[0-9]+,?[0-9]*,?\{[01]\}`)
 	reFlagGroup       = regexp.MustCompile(`\(\?[imsU-]+:`)
 	reFlagOnlyQuant   = regexp.MustCompile(`\(\?[imsU-]*\)([*+?]|\{[0-9])`)
 	reDashRange       = regexp.MustCompile(`\[.*(.--|--.|.-.-.).*\]`)
 )
 
-var reSingleRuneAlt = regexp.MustCompile(`(?:^|\(|\(\?:)((?:[^|()\\]\|)+[^|()\\])(?:\)|$)`)
+var reSingleRuneAlt = regexp.MustCompile(`(?:^|\(|\(\?[a-zA-Z-]*:|\(\?P?<[^>]*>)((?:[^|()\\]\|)+[^|()\\])(?:\)|$)`)
 
 // singleRuneAlt: the branches of some x|y|z with one rune per branch (whole pattern or a whole group)
 func singleRuneAlt(p string) [][]string {
@@ -758,6 +758,9 @@ func classify(pat, rw string, d *diff) string {
 
 // ---------------------------------------------------------------------------------------------
 
+// `[\,-x]`: Go reads a range, the third-party parser three items
+var reEscapedRangeBound = regexp.MustCompile(`\\[^A-Za-z0-9|*+?.\[\]^$()\\-]-[^\]]`)
+
 var reQuantNothing = regexp.MustCompile(`\(\?[a-zA-Z-]*\)[*+?{]`)
 
 func supportedByModel(p string) bool {
@@ -765,7 +768,7 @@ func supportedByModel(p string) bool {
 		return false
 	}
 	// the two parsers disagree: an operator after a flag group / empty group, a posix class as a range bound
-	if reQuantNothing.MatchString(p) || strings.Contains(p, "-[:") {
+	if reQuantNothing.MatchString(p) || strings.Contains(p, "-[:") || reEscapedRangeBound.MatchString(p) {
 		return false
 	}
 	if strings.Contains(p, "(?") {
@@ -1120,7 +1123,7 @@ var corpus = []string{
 	`(?:(a))(?:(a))`, `(?:(a))(?:(a))*`, `a(?:{)2}`, `(?:(a)b){1}`, `(a|b){0,1}?`, `(?i)[k][K]`, `(?s).{1,}`, `(?U)a{0,}b`,
 	`(|a)*`, `(|a)+`, `(a*)*b`, `(a*)+b`, `(a|b*)*c`, `(?:a*|b)*?c`, `(a??)*b`, `^a$|\bb\B`, `(?m)^a$`, `\Qa.b\E+`,
 	`a{2,3}?b`, `(a){2}`, `(a)|b`, `(?P<n>a)(b)?`, `[^a]`, `[a-c]`, `[a-a]`, `[a-b]`, `x\&y`, `\.\.`, `a    b`,
-	`(?i:a)[b]`, `(?s:.)\.\.`, `(|a)*b{1}`, `a|`, `(?:s*?b*)(?:s*?b*)*`, `s(?i){0}`, `\0{1}0`, `[a-b-*]`, `(?:❤x|❤xb)`,
+	`aa|aaa`, `aaa|aa`, `❤❤|❤❤❤`, `xx|xxx`, `(?i:a)[b]`, `(?s:.)\.\.`, `(|a)*b{1}`, `a|`, `(?:s*?b*)(?:s*?b*)*`, `s(?i){0}`, `\0{1}0`, `[a-b-*]`, `(?:❤x|❤xb)`,
 	`(?:a*b*)*c`, `(a*?)*b`, `(?:a?)*?b`, `((a*)+)+`, `(a*|b)+?c`, `(a??b??)*c`, `(?:(a)|b*)*c`, `(a*){2,3}b`, `(a*){2,}b`, `(a?){3}`,
 	`(a|){2,}?b`, `(?:a|(b))+`, `(?:(a)|(b))*`, `(a)*?(b)??`, `(?i)k+|ſ`, `(?i)[^k]`, `(?i)\W`, `(?s).\n`, `(?m)^$`, `(?U)a+?`, `(?U:a*)a`,
 	`....`, `aaaaa`, `\d\d\d`, `[ab][ab]`, `(?:ab)(?:ab)`, `[^\s]`, `[^\S]`, `[0-9]`, `[^0-9]`, `(?:a|b|c)`,
